@@ -117,6 +117,15 @@ CLAIMED = {
         technique="symbolic execution of call histories + z3 equivalence queries and free-variable (taint) check; "
                   "counterexamples replayed on the real pipeflow",
         design="4/C12"),
+    "C13": dict(
+        text="The real run_timeseries -> run_loop -> pandapower.run_time_step -> run_control -> ConstControl chain runs on a "
+             "profile frame of symbols with the real (symbolically executed) pipeflow as run function; for every enumerated "
+             "step list z3 proves each captured result cell equal to that of a stand-alone symbolic pipeflow with the step's "
+             "profile symbols, a free-variable check shows that no symbol of another step occurs, and forced divergence at every "
+             "subset of steps must be flagged exactly and, with continue_on_divergence, leave later steps unchanged.",
+        technique="symbolic execution through the real time-series loop + z3 equivalence per step, taint by free variables; "
+                  "divergence patterns enumerated; counterexamples replayed on the real run_timeseries",
+        design="4/C13"),
     "C14": dict(
         text="CrossHair executes the real init_options / _iteration_check / _mode_check / set_user_pf_options symbolically "
              "(z3) on dict layers built from symbolic presence flags and values; for each key cluster the documented "
